@@ -140,7 +140,7 @@ Definition map_value_schema (f : field) : ynode :=
   | _ => plain
   end.
 
-(* types.go:81-100 makeNullableSchema: "null" appended to a non-empty type list *)
+(* types.go:86-99 makeNullableSchema, first step: "null" appended to a non-empty type list *)
 Definition add_null_type (n : ynode) : ynode :=
   match n with
   | YMap kv =>
@@ -152,6 +152,22 @@ Definition add_null_type (n : ynode) : ynode :=
                           else e) kv)
   | _ => n
   end.
+(* types.go:101-105 makeNullableSchema, second step (the repair of nullable-enum-null-not-in-enum): a
+   node tagged !!null is appended to a non-empty `enum` list, whatever put the keyword there - the
+   names / enum_value strings / numbers of an enum field (convertEnumField), or the `in` list of a
+   string or numeric field (validation.go, through extractValidationConstraints).  A $ref (message
+   kinds) has neither keyword and stays as it is. *)
+Definition add_null_enum (n : ynode) : ynode :=
+  match n with
+  | YMap kv =>
+      YMap (map (fun e => if str_eqb (fst e) (s "enum")
+                          then (fst e, match snd e with
+                                       | YSeq (a :: l) => YSeq ((a :: l) ++ [YNull])
+                                       | x => x end)
+                          else e) kv)
+  | _ => n
+  end.
+Definition make_nullable (n : ynode) : ynode := add_null_enum (add_null_type n).
 
 (* types.go:30-68 convertField *)
 Definition convert_field (mn : str) (f : field) : ynode :=
@@ -167,7 +183,7 @@ Definition convert_field (mn : str) (f : field) : ynode :=
   | _ =>
       let base := convert_scalar mn f in
       match f_nullable f with
-      | Some true => add_null_type base
+      | Some true => make_nullable base
       | _ =>
           if is_msg_kind k && match f_empty f with Some EBNull => true | _ => false end
           then YMap [(s "oneOf", YSeq [base; YMap [(s "type", ystr "null")]])]
